@@ -464,3 +464,5 @@ SUBS = [
     Sub("adaptive_nd", lambda tier: histories_nd(tier), check_nd, quick=350, thorough=2500),
     Sub("derived_cover", lambda tier: cover_cases(tier), check_cover, quick=500, thorough=4000),
 ]
+
+RULE += ' Also: bin_shift of one width or more (1.25, 2.5, 3, -1.5 widths); N-D histories started from a zero-row array instead of None.'
